@@ -70,13 +70,14 @@ type Ev struct {
 	Failed    bool           `json:"failed"`
 	FailMsg   string         `json:"fail_msg"`
 	Exhaust   bool           `json:"exhaustive"`
+	Classes   map[string]int `json:"-"`
 	biggest   int
 	sampleCap int
 }
 
 func newEv(id string) *Ev {
 	return &Ev{Property: id, NonTriv: map[string]int{}, Labels: map[string]int{}, Excluded: map[string]int{},
-		Extra: map[string]any{}, sampleCap: 6}
+		Extra: map[string]any{}, sampleCap: 6, Classes: map[string]int{}}
 }
 
 func hashOf(v any) string {
@@ -122,6 +123,13 @@ func (e *Ev) NT(key string) {
 	e.mu.Unlock()
 }
 
+// Class records a coarse equivalence class of what was exercised (reported as a count).
+func (e *Ev) Class(key string) {
+	e.mu.Lock()
+	e.Classes[key]++
+	e.mu.Unlock()
+}
+
 func (e *Ev) Sample(c any) {
 	e.mu.Lock()
 	if len(e.Samples) < e.sampleCap {
@@ -155,10 +163,19 @@ func (e *Ev) write() {
 		"property_id": e.Property, "evaluations": e.Evals, "nontrivial_keys": keys, "labels": e.Labels,
 		"excluded": e.Excluded, "samples": e.Samples, "rule": e.Rule, "assumptions": e.Assume,
 		"extra": e.Extra, "failed": e.Failed, "fail_msg": e.FailMsg, "exhaustive": e.Exhaust,
-		"shard": shard, "known": e.Known,
+		"shard": shard, "known": e.Known, "classes": classKeys(e.Classes),
 	}
 	b, _ := json.MarshalIndent(out, "", " ")
 	_ = os.WriteFile(filepath.Join(outDir, fmt.Sprintf("shard-%s-%d.json", e.Property, shard)), b, 0o644)
+}
+
+func classKeys(m map[string]int) []string {
+	out := make([]string, 0, len(m))
+	for k := range m {
+		out = append(out, k)
+	}
+	sort.Strings(out)
+	return out
 }
 
 // ---- journal and replay ----
